@@ -370,6 +370,19 @@ def run_case(case):
                         devs += check_merged(out, case, assoc_out=aout)
                     except Exception as e:
                         devs.append(('C09', 'assoc-merge-raised', f'merging the associated stores raised {type(e).__name__}: {e}'))
+                if case.get('rebuild') and not devs:
+                    # Merge.tla Rebuild: take the merged store apart, merge the same stores in reversed order into the
+                    # same output path (same process), read again
+                    for p in paths:
+                        if not p.exists() and (out / p.name).exists():
+                            os.rename(out / p.name, p)
+                    shutil.rmtree(out)
+                    try:
+                        _aeic()[0].merge(output_store=out, input_stores=list(reversed(paths)))
+                        devs += [(pr, 'rebuilt:' + key, 'after taking the merged store apart and merging the inputs in reversed order into the same path: ' + desc)
+                                 for pr, key, desc in check_merged(out, dict(case, expect=case['expect2']))]
+                    except Exception as e:
+                        devs.append(('C09', 'rebuilt:merge-raised', f'merging again into the same (removed) output path raised {type(e).__name__}: {e}'))
         elif not case['valid']:
             if outcome == 'ok':
                 mixed_ids = len({bool(x['ids']) for x in ins}) > 1
